@@ -19,6 +19,14 @@
      get/try_get, Cursor reads are all instances (they differ in how many elements they read under
      one snapshot and in how often they reload the length).
 
+   * the writer thread may own OTHER vectors of the same database (engine schedvec: a second vector `b`).
+     Between two write() calls of the modelled vector it may write to them: all that matters here is
+     WHERE their bytes land (`LWOther ns nr` / `KOther ns nr`: the extent [ns, ns+nr) the allocator gave
+     to the other region, or the extent it already owns) and that the file may grow on their behalf
+     (`LWOtherGrow` / `KOtherGrow`).  The guard of the placement is the same freshness guard as for the
+     vector's own relocations: the extent must be disjoint from the vector's current extent and from every
+     extent it vacated (vacated extents only become reusable at a flush, and no flush happens here);
+
    ASSUMPTIONS of the step model (not exhibited by it):
    * every step is atomic and the memory is sequentially consistent inside and between steps;
      this is only claimed for `SharedLen` orderings Release (store) / Acquire (load): with any
@@ -52,6 +60,10 @@ Definition mwrite (m : mem) (b : N) (vs : list N) : mem :=
 (* copy n bytes from src to dst (ranges disjoint) *)
 Definition mcopy (m : mem) (src dst n : N) : mem :=
   fun a => if (dst <=? a) && (a <? dst + n) then m (a - dst + src) else m a.
+
+(* bytes of ANOTHER region land in [b, b+n): whatever they are, they are not values of this vector *)
+Definition mfill (m : mem) (b n : N) : mem :=
+  fun a => if (b <=? a) && (a <? b + n) then CNone else m a.
 
 Record region := { r_start : N; r_len : N; r_res : N }.
 
@@ -130,7 +142,9 @@ Inductive rs_label :=
 | LWSetLen                            (* fits / in place: length update; relocation: layout + meta publication *)
 | LWPublish
 | LWPublishEarly                      (* only if the orderings are not Release/Acquire *)
-| LRLoad (r : N) | LRSnap (r : N) | LRGuard (r : N) | LRRead (r i : N) | LRDrop (r : N).
+| LRLoad (r : N) | LRSnap (r : N) | LRGuard (r : N) | LRRead (r i : N) | LRDrop (r : N)
+| LWOther (ns nr : N)                 (* the writer thread writes into the extent [ns, ns+nr) of another region *)
+| LWOtherGrow (target : N).           (* … and grows the file on behalf of another region *)
 
 Definition rs_from (s : rs_state) : N := rs_slen s * ESZ + HDR.
 Definition rs_pushed (s : rs_state) : list N := drop (rs_slen s) (rs_hist s).
@@ -267,6 +281,20 @@ Definition rs_step (s : rs_state) (l : rs_label) : option rs_state :=
       | RGuard _ _ _ => Some (set_rd s r RIdle (rs_nguard s - 1) (rs_log s))
       | RLen _ | RSnap _ _ _ => Some (set_rd s r RIdle (rs_nguard s) (rs_log s))
       | _ => None end
+  | LWOther ns nr =>   (* another region of the same writer thread is written / placed (region.rs:163-289 on THAT region):
+                          between two write() calls of this vector; the placement is guarded like this vector's own *)
+      match rs_w s with
+      | WIdle => if fresh_ext s ns nr then Some (set_wm s WIdle (mfill (rs_mem s) ns nr)) else None
+      | _ => None end
+  | LWOtherGrow target =>   (* set_min_len on behalf of another region: same mmap write lock *)
+      match rs_w s with
+      | WIdle =>
+          if (rs_flen s <? ceil_page target) && (rs_nguard s =? 0)
+          then Some {| rs_reg := reg; rs_flen := grown_file_len (rs_flen s) target; rs_mem := rs_mem s; rs_slen := rs_slen s;
+                       rs_hist := rs_hist s; rs_w := WIdle; rs_retired := rs_retired s; rs_rd := rs_rd s;
+                       rs_nguard := rs_nguard s; rs_log := rs_log s |}
+          else None
+      | _ => None end
   end.
 
 (* initial states: a freshly created vector (header written, nothing stored), file large enough *)
@@ -339,7 +367,8 @@ Inductive cs_label :=
 | KBegin (sizes : list N)       (* write(): plan + first copy decided from the index; sizes = compressor's answers *)
 | KReserve (g : ghint) | KGrowFile | KCopy | KSetLen
 | KLock | KIndex | KPublish | KFlush | KUnlock
-| KRLoad (r : N) | KRSnap (r : N) | KRGuard (r : N) | KRPages (r : N) | KRRead (r i : N) | KRDrop (r : N).
+| KRLoad (r : N) | KRSnap (r : N) | KRGuard (r : N) | KRPages (r : N) | KRRead (r i : N) | KRDrop (r : N)
+| KOther (ns nr : N) | KOtherGrow (target : N).     (* as LWOther / LWOtherGrow *)
 
 Definition nthp (ps : list page) (i : N) : option page := nth_error ps (N.to_nat i).
 Definition next_start (ps : list page) : N := match last ps {| p_start := HDR; p_bytes := 0; p_count := 0; p_raw := true |} with p => p_end p end.
@@ -564,6 +593,20 @@ Definition cs_step (s : cs_state) (l : cs_label) : option cs_state :=
       | RPages _ _ _ => Some (cset_rd s r RIdle (cs_nguard s - 1) (cs_npages s - 1) (cs_log s))
       | RGuard _ _ _ => Some (cset_rd s r RIdle (cs_nguard s - 1) (cs_npages s) (cs_log s))
       | RLen _ | RSnap _ _ _ => Some (cset_rd s r RIdle (cs_nguard s) (cs_npages s) (cs_log s))
+      | _ => None end
+  | KOther ns nr =>
+      match cs_w s with
+      | CIdle => if cs_fresh_ext s ns nr then Some (cset s CIdle reg (mfill (cs_mem s) ns nr) (cs_retired s)) else None
+      | _ => None end
+  | KOtherGrow target =>
+      match cs_w s with
+      | CIdle =>
+          if (cs_flen s <? ceil_page target) && (cs_nguard s =? 0)
+          then Some {| cs_reg := reg; cs_flen := grown_file_len (cs_flen s) target; cs_mem := cs_mem s; cs_slen := cs_slen s;
+                       cs_hist := cs_hist s; cs_pp := cs_pp s; cs_pages := cs_pages s; cs_blobs := cs_blobs s; cs_w := CIdle;
+                       cs_wlock := cs_wlock s; cs_retired := cs_retired s; cs_rd := cs_rd s; cs_nguard := cs_nguard s;
+                       cs_npages := cs_npages s; cs_log := cs_log s |}
+          else None
       | _ => None end
   end.
 
